@@ -204,22 +204,36 @@ Example C17_contains_sorted_nonvacuous :
 Proof. split; vm_compute; reflexivity. Qed.
 
 (* ---------------------------------------------------------------- Range *)
-(* [range_infinite start e step] = (e < start /\ step > 0) \/ (e > start /\ step < 0) \/
+(* The model follows the code's uint64 arithmetic ([u64] = wrap-around, [s64] = int(x)); the
+   theorem is about ALL int64 arguments ([int64 x] = MinInt <= x <= MaxInt), so it says that no
+   wrap-around ever shows in the result.
+   [range_infinite start e step] = (e < start /\ step > 0) \/ (e > start /\ step < 0) \/
    (e <> start /\ step = 0): exactly the condition of panic("Infinite set").
+   [range_count] = the number of elements, (|e - start| - 1) / |step| + 1: when it exceeds MaxInt,
+   make([]int, count) panics (len out of range) - the only other non-Ret outcome.  (A count below
+   MaxInt that does not fit into memory is outside the model: sizes are assumed to fit.)
    [in_range start e step z] = z = start + k*step for some k >= 0 and z lies in [start, e)
    (when start <= e) resp. in (e, start] (when e < start). *)
-Theorem C17_range : forall start e step,
+Theorem C17_range : forall start e step, int64 start -> int64 e -> int64 step ->
   (range_infinite start e step -> range start e step = Panic) /\
-  (~ range_infinite start e step ->
+  (~ range_infinite start e step -> range_count start e step > max_int -> range start e step = Panic) /\
+  (~ range_infinite start e step -> range_count start e step <= max_int ->
      exists r, range start e step = Ret r /\ SInc r /\ forall z, In z r <-> in_range start e step z).
 Proof. exact range_spec. Qed.
 Print Assumptions C17_range.
 
 Example C17_range_nonvacuous :
   range 2 11 3 = Ret [2; 5; 8] /\ range 5 0 (-2) = Ret [1; 3; 5] /\ range 5 0 1 = Panic /\
-  ~ range_infinite 5 0 (-2).
+  range (max_int - 5) max_int 10 = Ret [max_int - 5] /\
+  range max_int (max_int - 3) (-1) = Ret [max_int - 2; max_int - 1; max_int] /\
+  range 0 min_int min_int = Ret [0] /\
+  range min_int max_int 4611686018427387904 = Ret [min_int; -4611686018427387904; 0; 4611686018427387904] /\
+  range min_int max_int 1 = Panic /\
+  int64 min_int /\ int64 max_int /\ ~ range_infinite 5 0 (-2).
 Proof.
-  split; [vm_compute; reflexivity|]. split; [vm_compute; reflexivity|]. split; [vm_compute; reflexivity|].
+  repeat (split; [vm_compute; reflexivity|]).
+  split; [unfold int64, min_int, max_int; split; discriminate|].
+  split; [unfold int64, min_int, max_int; split; discriminate|].
   unfold range_infinite. intros [[? ?]|[[? ?]|[? ?]]]; discriminate || (compute in *; discriminate).
 Qed.
 
